@@ -217,6 +217,14 @@ func runC05(c *eng.Ctx) {
 		// acyclic: a member of group h depends on group g of the SAME type (same index in its group)
 		{Regs: []Reg{mkReg("InU_1_2_Group", godi.Scoped, withGroup("h")), mkReg("Leaf_K1_a", godi.Scoped, withGroup("g")), mkReg("Leaf_K1_b", godi.Scoped, withGroup("g"))}},
 		{Regs: []Reg{mkReg("Leaf_K1_c", godi.Transient, withGroup("g")), mkReg("InU_1_2_Group", godi.Scoped, withGroup("h")), mkReg("InU_0_2_Group", godi.Scoped, withName("k"))}},
+		// acyclic: one output of a multi-output Add call is removed and registered again by a
+		// constructor that depends on an output that stays (first and second output, multi-return
+		// and result object): every resolution must still terminate
+		{Regs: []Reg{mkReg("MR_K0K1", godi.Scoped), {Remove: true, RmType: "K0", Tail: true}, tailReg(mkReg("PosA_0_2", godi.Scoped))}},
+		{Regs: []Reg{mkReg("MR_K0K1", godi.Scoped), {Remove: true, RmType: "K1", Tail: true}, tailReg(mkReg("PosA_1_1", godi.Scoped))}},
+		{Regs: []Reg{mkReg("OutP_K0K1", godi.Scoped), {Remove: true, RmType: "K0", Tail: true}, tailReg(mkReg("PosA_0_2", godi.Scoped))}},
+		{Regs: []Reg{mkReg("MR_K0K1", godi.Singleton), {Remove: true, RmType: "K0", Tail: true}, tailReg(mkReg("PosA_0_2", godi.Singleton))}},
+		{Regs: []Reg{mkReg("MR_K0K1", godi.Transient), {Remove: true, RmType: "K0", Tail: true}, tailReg(mkReg("PosA_0_2", godi.Scoped))}},
 		// acyclic: keyed and unkeyed registration of one type depending on each other's identity
 		{Regs: []Reg{mkReg("InU_1_2_Keyed", godi.Scoped), mkReg("Leaf_K1_a", godi.Scoped, withName("k"))}},
 	}
@@ -230,6 +238,10 @@ func runC05(c *eng.Ctx) {
 		exec(idx, s, m, "directed")
 		c.R.End(idx, eng.Hash("c05-directed", s.Canon()), true)
 	}
+	// every unusual declaration form x every dependency slot: valid, and with the cycle closed through that slot
+	runSlotSpecs(cr, map[string]bool{"valid": true, "cycle": true}, exec, func(idx int, s *Spec) {
+		c.R.End(idx, eng.Hash("c05-slot", s.Canon()), true)
+	})
 	// digraphs over K0..K3: 65536 masks x 5 uniform forms (+ positional) x lifetime sets
 	const nDigraphs = 65536
 	total := nDigraphs * 5
@@ -303,6 +315,8 @@ func runC05(c *eng.Ctx) {
 		c.R.End(idx, eng.Hash("c05-rand", s.Canon()), len(flatEdges(m)) > 0)
 	}
 }
+
+func tailReg(r Reg) Reg { r.Tail = true; return r }
 
 func trimErr(err error) string {
 	if err == nil {
